@@ -579,8 +579,11 @@ class Session:
         elif t == "inspect":
             m = r.mc
             xr = m.xrange
-            return ["info", int(m.sample_size), fx(m.confidence), STRAT[m.strategy],
-                    None if not xr else [fx(xr[0]), fx(xr[1])]]
+            try:
+                xr_obs = None if not xr else [fx(xr[0]), fx(xr[1])]
+            except (TypeError, ValueError, IndexError):
+                return ["exn", "OtherError"]        # the stored range is not a pair of numbers
+            return ["info", int(m.sample_size), fx(m.confidence), STRAT[m.strategy], xr_obs]
         elif t == "mutate":
             self.handed[o[1]][o[2]] = float.fromhex(o[3])
         elif t == "set_gsize":
